@@ -1,5 +1,6 @@
 import NumbersModel.Drv.A1
 import NumbersModel.Drv.Tokenizer
+import NumbersModel.Drv.Items
 
 open NumbersModel.Drv
 
@@ -8,6 +9,7 @@ def dispatch (line : String) : String :=
   let r : Option String := match ws with
     | "a1" :: rest => handleA1 rest
     | "tok" :: rest => handleTok rest
+    | "items" :: rest => handleItems rest
     | _ => none
   match r with
   | some s => s
